@@ -556,6 +556,19 @@ def E_dispatch(repo, clause):
             for x in path_branch:
                 if isinstance(x, ast.If) and is_none_test_any_e(x.test) == "is" and any(isinstance(y, ast.Call) and call_name(y) == "splitext" for y in ast.walk(x)):
                     ext_ok = True
+            # the extension may replace the file type only where no explicit type was given
+            overwrite = None
+            for x in ast.walk(ast.Module(body=path_branch, type_ignores=[])):
+                if isinstance(x, ast.Assign) and any(isinstance(t_, ast.Name) and t_.id == "filetype" for t_ in x.targets) or \
+                        (isinstance(x, ast.Assign) and any(isinstance(t_, ast.Tuple) and any(isinstance(e_, ast.Name) and e_.id == "filetype" for e_ in t_.elts) for t_ in x.targets)):
+                    guarded_ = any(is_none_test_any_e(t_) == "is" and pol_ for t_, pol_, k_ in norm_guards(fn, x))
+                    prefers_ext = isinstance(x.value, ast.BoolOp) and isinstance(x.value.op, ast.Or) and not (isinstance(x.value.values[0], ast.Name) and x.value.values[0].id == "filetype")
+                    if not guarded_ and (prefers_ext or not isinstance(x.value, ast.BoolOp)) and "filetype" not in [getattr(v_, "id", None) for v_ in ([x.value.values[0]] if isinstance(x.value, ast.BoolOp) else [])]:
+                        overwrite = x
+            if overwrite is not None:
+                obs.append(Ob("E5", clause, fn, overwrite, False,
+                              "Atoms.%s: `%s` replaces an EXPLICIT filetype by the file extension (the documented precedence is: explicit type overrides the extension)" % (which, ast.unparse(overwrite)[:60]),
+                              slot="%s:explicit-type-wins" % which, positive=True))
             ok_ = args_ok and fd_st and raise_ok and ext_ok
             obs.append(Ob("E5", clause, fn, t0, ok_,
                           "Atoms.%s: isinstance(%s, file) -> handle, explicit type required (raise when None)=%s; otherwise path, extension used when the type is None=%s; isinstance arguments in order=%s" % (
@@ -571,6 +584,13 @@ def E_dispatch(repo, clause):
     ok = any(isinstance(c, ast.Call) and call_name(c) == "open" and len(c.args) >= 2 and isinstance(c.args[1], ast.Name) and c.args[1].id == "mode"
              for c in ast.walk(uo.node))
     obs.append(Ob("E5", clause, uo, uo.node, ok, "use_or_open opens the path with the requested mode and otherwise yields the given handle", construct="def use_or_open", slot="use_or_open"))
+    fhp = uo.params[0] if uo.params else None
+    closes = [w_ for w_ in uo.own_nodes() if isinstance(w_, ast.With) and any(isinstance(it.context_expr, ast.Name) and it.context_expr.id == fhp for it in w_.items)] + \
+        [c_ for c_ in calls_in(uo) if isinstance(c_.func, ast.Attribute) and c_.func.attr == "close" and isinstance(c_.func.value, ast.Name) and c_.func.value.id == fhp]
+    obs.append(Ob("E5", clause, uo, closes[0] if closes else uo.node, not closes,
+                  "use_or_open %s" % ("closes only the file it opened itself" if not closes else
+                                      "CLOSES the handle it was given (`with %s:` / %s.close()): after Atoms.save(buffer, ...) or Atoms.load(fd, ...) the caller's StringIO / file is closed and a write-read-write round trip through the same handle fails" % (fhp, fhp)),
+                  construct=None if closes else "def use_or_open: with open(...)", slot="use_or_open-owner", positive=True))
     return obs
 
 
@@ -630,8 +650,29 @@ def E2_cif_tags(repo, clause):
     obs.append(Ob("E2", clause, r, r.node, bool(handled_lists) and not mixed,
                   "tags removed from the loop's key list are spelled in lower case, as the CIF library reports keys (%d tags; mixed-case: %s)" % (len(set(handled_lists)), mixed or "none"),
                   construct="OrderedSet(block.GetLoop(...).keys()) - handled tags", slot="handled-tags-lowercase", positive=bool(mixed)))
-    # cell angles: each angle is between the two rows it names, normalised by the norms of the same two rows
+    # cell lengths: a, b, c are the norms of ROWS 0, 1, 2 of the cell
     cab = repo.fn("Atoms.cell_abc_alpha_beta_gamma")
+    rets_ = [x for x in cab.own_nodes() if isinstance(x, ast.Return) and isinstance(x.value, ast.Tuple) and len(x.value.elts) == 6]
+    if len(rets_) == 1:
+        for k_, el_ in enumerate(rets_[0].value.elts[:3]):
+            ee_ = expand(cab, el_)
+            verdict = None
+            why_ = ast.unparse(ee_)[:60]
+            subs_ = [y for y in ast.walk(ee_) if isinstance(y, ast.Subscript) and const_value(y.slice) is not None]
+            norms_axis = [y for y in ast.walk(ee_) if isinstance(y, ast.Call) and call_name(y) == "norm" and kwarg(y, "axis") is not None]
+            if norms_axis:
+                axv_ = const_value(kwarg(norms_axis[0], "axis"))
+                verdict = axv_ in (1, -1) and isinstance(ee_, ast.Subscript) and const_value(ee_.slice) == k_
+                why_ += " (norms along axis %s: %s)" % (axv_, "rows" if axv_ in (1, -1) else "COLUMNS - the lattice vectors are the rows, so lengths are wrong for every triclinic cell")
+            elif subs_ and all(const_value(y.slice) == k_ for y in subs_ if ast.unparse(y.value).endswith("cell") or isinstance(y.value, ast.Name)) and \
+                    any(isinstance(y, ast.Call) and call_name(y) in ("sqrt", "norm") for y in ast.walk(ee_)):
+                verdict = True
+            elif subs_ and any(isinstance(y, ast.Call) and call_name(y) in ("sqrt", "norm") for y in ast.walk(ee_)):
+                verdict = False
+                why_ += " (uses row %s)" % sorted({const_value(y.slice) for y in subs_})
+            obs.append(Ob("E2", clause, cab, el_, bool(verdict), "cell length %s = norm of lattice row %d: %s" % ("abc"[k_], k_, why_),
+                          slot="cell-length:%s" % "abc"[k_], positive=verdict is False, undecided=verdict is None))
+    # cell angles: each angle is between the two rows it names, normalised by the norms of the same two rows
     accs = [c_ for c_ in calls_in(cab) if call_name(c_) == "arccos"]
     want_pairs = [(1, 2), (0, 2), (0, 1)]
     if len(accs) == 3:
@@ -1301,6 +1342,36 @@ def E_enumeration_shape(repo, clause):
         except NameError:
             pass
     obs.append(Ob("E10", clause, cd, lp[0] if lp else cd.node, ok, detail, slot="dihedrals", positive=pos10))
+    # no edge is skipped that has at least one further neighbour on each end (an empty neighbour list yields no tuple anyway)
+    if len(lp) == 1:
+        try:
+            prod_stmt = cd.stmt_of(lc[0]) if lc else None
+        except NameError:
+            prod_stmt = None
+        if prod_stmt is not None:
+            for t, pol, k in norm_guards(cd, prod_stmt, stop=lp[0]):
+                for cmp_ in [y for y in ast.walk(t) if isinstance(y, ast.Compare) and len(y.ops) == 1 and isinstance(y.left, ast.Call) and call_name(y.left) == "len"]:
+                    k0 = const_value(cmp_.comparators[0])
+                    op_ = type(cmp_.ops[0])
+                    # the product runs when the guard (t taken as pol) holds; a skip `len(x) < k: continue` shows up as (len(x) < k, False)
+                    skips_nonempty = None
+                    if isinstance(k0, int):
+                        if op_ is ast.Lt:
+                            skips_nonempty = (k0 > 1) if not pol else None
+                        elif op_ is ast.LtE:
+                            skips_nonempty = (k0 >= 1) if not pol else None
+                        elif op_ is ast.Gt:
+                            skips_nonempty = (k0 >= 1) if pol else None
+                        elif op_ is ast.GtE:
+                            skips_nonempty = (k0 > 1) if pol else None
+                        elif op_ is ast.Eq and not pol:
+                            skips_nonempty = k0 >= 1
+                    if skips_nonempty is None:
+                        continue
+                    obs.append(Ob("E10", clause, cd, cmp_, not skips_nonempty,
+                                  "torsions about a bond are enumerated unless `%s`%s" % (ast.unparse(cmp_), "" if not skips_nonempty else
+                                                                                          ": a bond whose end atom has exactly ONE other neighbour (ether oxygen, H-O-O-H, chain ends of rings) has torsions, and they are skipped"),
+                                  slot="dihedral-skip", positive=skips_nonempty))
     return obs
 
 
